@@ -7,6 +7,7 @@ cd "$(dirname "$0")"
 mkdir -p bin evidence replays
 cp /repo/go.sum harness/go.sum
 ( cd tools/rewrite && go build -o ../../bin/rewrite . ) || exit 1
+( cd tools/maporder && go build -o ../../bin/maporder . ) || exit 1
 ( cd harness && go build -o ../bin/verif ./cmd/verif ) || exit 1
 ov=$(mktemp -d /var/tmp/verif-ov.XXXXXX)
 ./bin/rewrite -out "$ov" -shim "$(pwd)/harness/shim" pkg/kube/client.go pkg/kube/wait.go pkg/storage/driver/memory.go >/dev/null \
